@@ -27,6 +27,7 @@ C == INSTANCE CsvGrammar
 J == INSTANCE JsonGrammar WITH DefectivePairs <- FALSE
 JD == INSTANCE JsonGrammar WITH DefectivePairs <- TRUE      \* only inside KF (identification of a known finding)
 A == INSTANCE AvroEncoding
+BN == INSTANCE BigNum WITH LimbDigits <- 4
 
 VARIABLE l
 
@@ -107,6 +108,70 @@ FloatInt(s) ==
               digits == IF ip = <<48>> THEN <<48>> ELSE ip \o [i \in 1..x |-> 48]
           IN IF Len(digits) > 15 THEN <<>> ELSE <<105>> \o (IF neg THEN <<45>> ELSE <<>>) \o digits       \* "i" [-] digits
 
+(* ---- the value of a number lexeme in an integer column (Int8 .. Int64, UInt8 .. UInt64; t.w bits, t.u = 1    *)
+(* unsigned).  The lexeme [-] int [. frac] [(e|E) [+-] digits] denotes the rational  D * 10^scale  with D the   *)
+(* digits of int and frac and scale = exponent - Len(frac), computed exactly on limbs.  Required: a lexeme that   *)
+(* denotes an integer in the range of the type decodes to exactly that integer.  Pinned from the code (arrow-json *)
+(* reader/primitive_array.rs: a lexeme the integer parser does not take is read as f64 and cast): an integer      *)
+(* outside the range is an error; a non-integral value is truncated towards zero, then range checked (judged for  *)
+(* lexemes of at most 15 significant digits, where the f64 is certainly on the same side of every integer;        *)
+(* longer non-integral lexemes are not judged).  `viaF64` = TRUE additionally rounds the integer value to 53      *)
+(* significant bits first (round half to even), as the f64 detour does: used only to identify the known finding   *)
+(* C17-json-int-via-f64-inexact, never as the oracle.                                                             *)
+RECURSIVE DecToMag(_, _, _)
+DecToMag(d, i, acc) == IF i > Len(d) THEN acc
+                       ELSE DecToMag(d, i + 1, BN!MagAdd(BN!MagMulSmall(acc, 10), BN!MagFromNatGen(d[i] - 48)))
+RECURSIVE StripZeros(_)
+StripZeros(d) == IF d # <<>> /\ d[1] = 48 THEN StripZeros(Tail(d)) ELSE d
+
+P53 == BN!MagPow2(53)
+F64RoundMag(m) ==
+  IF BN!MagCmp(m, P53) <= 0 \/ BN!MagCmp(m, BN!MagPow2(65)) >= 0 THEN m
+  ELSE LET k == CHOOSE k \in 1..12 : BN!MagCmp(BN!MagDivSmall(m, 2 ^ k).q, P53) < 0
+                                      /\ \A j \in 1..(k - 1) : BN!MagCmp(BN!MagDivSmall(m, 2 ^ j).q, P53) >= 0
+           dv == BN!MagDivSmall(m, 2 ^ k)
+           half == 2 ^ (k - 1)
+           up == dv.r > half \/ (dv.r = half /\ dv.q[1] % 2 = 1)
+       IN BN!MagMulSmall(IF up THEN BN!MagAdd(dv.q, <<1>>) ELSE dv.q, 2 ^ k)
+
+InIntRange(neg, m, w, u) ==
+  IF u = 1 THEN (~neg \/ m = <<>>) /\ BN!MagCmp(m, BN!MagPow2(w)) < 0
+  ELSE IF neg THEN BN!MagCmp(m, BN!MagPow2(w - 1)) <= 0 ELSE BN!MagCmp(m, BN!MagPow2(w - 1)) < 0
+
+IVal(neg, m) == [kind |-> "val", neg |-> neg /\ m # <<>>, m |-> m]
+IErr == [kind |-> "err", neg |-> FALSE, m |-> <<>>]
+IUnd == [kind |-> "und", neg |-> FALSE, m |-> <<>>]
+
+(* what reading the number lexeme s into an integer column of w bits must give: a value, an error, or not judged *)
+IntOutcome(s, w, u, viaF64) ==
+  LET neg == s[1] = 45
+      us == Unsigned(s)
+      e == PosOf(us, {101, 69})
+      mant == IF e = 0 THEN us ELSE SubSeq(us, 1, e - 1)
+      ex == IF e = 0 THEN <<>> ELSE SubSeq(us, e + 1, Len(us))
+      eneg == ex # <<>> /\ ex[1] = 45
+      exd == IF ex # <<>> /\ ex[1] \in {43, 45} THEN Tail(ex) ELSE ex
+      dot == PosOf(mant, {46})
+      ip == IF dot = 0 THEN mant ELSE SubSeq(mant, 1, dot - 1)
+      fp == IF dot = 0 THEN <<>> ELSE SubSeq(mant, dot + 1, Len(mant))
+      pure == e = 0 /\ dot = 0
+      D == DecToMag(ip \o fp, 1, <<>>)
+      sig == Len(StripZeros(ip \o fp))
+      Check(m) == IF InIntRange(neg, m, w, u) THEN IVal(neg, m) ELSE IErr
+      Cast(m) == IF viaF64 /\ ~(pure /\ InIntRange(neg, m, w, u)) THEN Check(F64RoundMag(m)) ELSE Check(m)
+  IN IF Len(exd) > 3 \/ Len(ip \o fp) > 40 THEN IUnd
+     ELSE IF D = <<>> THEN IVal(FALSE, <<>>)
+     ELSE LET scale == (IF eneg THEN 0 - ToNat(exd) ELSE ToNat(exd)) - Len(fp) IN
+          IF scale >= 0 THEN (IF scale > 25 THEN IErr ELSE Cast(BN!MagMulPow10(D, scale)))
+          ELSE LET k == 0 - scale
+                   t == BN!MagDivPow10(D, k) IN
+               IF BN!MagMulPow10(t, k) = D THEN Cast(t)                       \* an integer
+               ELSE IF sig <= 15 THEN Check(t)                                \* truncated towards zero
+               ELSE IUnd
+
+(* the decoded integer (decimal string) as sign and magnitude *)
+LoggedInt(n) == LET neg == n.s # <<>> /\ n.s[1] = 45 IN [neg |-> neg, m |-> DecToMag(Unsigned(n.s), 1, <<>>)]
+
 KeyIndex(keys, name) == IF \E i \in 1..Len(keys) : keys[i] = name THEN CHOOSE i \in 1..Len(keys) : keys[i] = name ELSE 0
 UniqueKeys(keys) == \A i, j \in 1..Len(keys) : keys[i] = keys[j] => i = j
 
@@ -114,7 +179,7 @@ UniqueKeys(keys) == \A i, j \in 1..Len(keys) : keys[i] = keys[j] => i = j
 RECURSIVE Conforms(_, _, _)
 Conforms(v, t, smode) ==
   IF v.k = "null" THEN TRUE
-  ELSE CASE t.k = "int" -> v.k = "num" /\ IsIntLexeme(v.s) /\ InI64(v.s)
+  ELSE CASE t.k = "int" -> v.k = "num"
          [] t.k = "float" -> v.k = "num"
          [] t.k = "str" -> v.k = "str"
          [] t.k = "bool" -> v.k \in {"true", "false"}
@@ -126,43 +191,58 @@ Conforms(v, t, smode) ==
          [] OTHER -> FALSE
 
 (* the decoded tree n is the value the document v denotes under type t *)
-RECURSIVE Agrees(_, _, _, _)
-Agrees(n, v, t, smode) ==
+RECURSIVE Agrees(_, _, _, _, _)
+Agrees(n, v, t, smode, f64) ==
   IF v.k = "null" THEN n = NullNode
-  ELSE CASE t.k = "int" -> n = [k |-> "num", s |-> CanonInt(v.s), kids |-> <<>>]
+  ELSE CASE t.k = "int" -> LET o == IntOutcome(v.s, t.w, t.u, f64) IN
+                           n.k = "num" /\ n.kids = <<>> /\ o.kind = "val" /\ LoggedInt(n) = [neg |-> o.neg, m |-> o.m]
          [] t.k = "float" -> n.k = "flt" /\ n.kids = <<>> /\ (FloatInt(v.s) # <<>> => n.s = FloatInt(v.s))
          [] t.k = "str" -> n = [k |-> "str", s |-> v.s, kids |-> <<>>]
          [] t.k = "bool" -> n = [k |-> v.k, s |-> <<>>, kids |-> <<>>]
          [] t.k = "list" -> n.k = "arr" /\ n.s = <<>> /\ Len(n.kids) = Len(v.kids)
-                            /\ \A i \in 1..Len(v.kids) : Agrees(n.kids[i], v.kids[i], t.kids[1], smode)
+                            /\ \A i \in 1..Len(v.kids) : Agrees(n.kids[i], v.kids[i], t.kids[1], smode, f64)
          [] t.k = "struct" ->
               /\ n.k = "obj" /\ n.s = <<>> /\ Len(n.kids) = Len(t.kids)
               /\ \A j \in 1..Len(t.kids) :
-                   IF smode = "list" THEN Agrees(n.kids[j], v.kids[j], t.kids[j], smode)
+                   IF smode = "list" THEN Agrees(n.kids[j], v.kids[j], t.kids[j], smode, f64)
                    ELSE LET i == KeyIndex(v.keys, t.names[j]) IN
-                        IF i = 0 THEN n.kids[j] = NullNode ELSE Agrees(n.kids[j], v.kids[i], t.kids[j], smode)
+                        IF i = 0 THEN n.kids[j] = NullNode ELSE Agrees(n.kids[j], v.kids[i], t.kids[j], smode, f64)
          [] OTHER -> FALSE
 
-(* the same relation between two decoded trees (rows the writer was given / rows read back) *)
+(* some integer leaf of the (conforming) document v has an outcome of the given kind *)
+RECURSIVE AnyInt(_, _, _, _, _)
+AnyInt(v, t, smode, kind, f64) ==
+  IF v.k = "null" THEN FALSE
+  ELSE CASE t.k = "int" -> IntOutcome(v.s, t.w, t.u, f64).kind = kind
+         [] t.k = "list" -> \E i \in 1..Len(v.kids) : AnyInt(v.kids[i], t.kids[1], smode, kind, f64)
+         [] t.k = "struct" ->
+              IF smode = "list" THEN \E i \in 1..Len(v.kids) : AnyInt(v.kids[i], t.kids[i], smode, kind, f64)
+              ELSE \E i \in 1..Len(v.keys) : LET j == KeyIndex(t.names, v.keys[i]) IN j # 0 /\ AnyInt(v.kids[i], t.kids[j], smode, kind, f64)
+         [] OTHER -> FALSE
+
 JsonDocs(ev) ==      \* [ok, vs]: the documents of the text
   IF ev.flatten THEN LET p == J!Parse(ev.text) IN
                      IF p.ok /\ p.v.k = "arr" THEN [ok |-> TRUE, vs |-> p.v.kids] ELSE [ok |-> FALSE, vs |-> <<>>]
   ELSE J!ParseStream(ev.text)
 
-JsonTextWhat(ev) ==
+JsonTextWhatM(ev, f64) ==
   IF ev.outcome = "panic" THEN "json reader panic"
   ELSE LET d == JsonDocs(ev)
            top(v) == IF ev.top_struct THEN v.k = (IF ev.smode = "list" THEN "arr" ELSE "obj") ELSE TRUE
+           AnyK(kind) == \E i \in 1..Len(d.vs) : AnyInt(d.vs[i], ev.schema, ev.smode, kind, f64)
        IN IF ~d.ok THEN (IF ev.src = "writer" THEN "json writer text not RFC 8259" ELSE "")      \* not a document: not judged
           ELSE IF ~(\A i \in 1..Len(d.vs) : top(d.vs[i]) /\ Conforms(d.vs[i], ev.schema, ev.smode))
                THEN (IF ev.src = "writer" THEN "json writer text # schema" ELSE "")              \* outside the schema: not judged
+          ELSE IF AnyK("und") THEN ""                                                             \* long non-integral lexeme in an integer column
+          ELSE IF AnyK("err") THEN (IF ev.outcome = "err" THEN "" ELSE "json int out of range read")
           ELSE IF ev.outcome # "ok" THEN "json reader rejects RFC 8259"
           ELSE IF Len(ev.rows) # Len(d.vs) THEN "json row count"
-          ELSE IF ~(\A i \in 1..Len(d.vs) : Agrees(ev.rows[i], d.vs[i], ev.schema, ev.smode)) THEN "json values"
-          ELSE IF ev.has_want /\ ~(Len(ev.want) = Len(d.vs) /\ \A i \in 1..Len(d.vs) : Agrees(ev.want[i], d.vs[i], ev.schema, ev.smode))
+          ELSE IF ~(\A i \in 1..Len(d.vs) : Agrees(ev.rows[i], d.vs[i], ev.schema, ev.smode, f64)) THEN "json values"
+          ELSE IF ev.has_want /\ ~(Len(ev.want) = Len(d.vs) /\ \A i \in 1..Len(d.vs) : Agrees(ev.want[i], d.vs[i], ev.schema, ev.smode, f64))
                THEN "json writer values"
           ELSE IF ev.has_want /\ ev.rows # ev.want THEN "json tree round trip"
           ELSE ""
+JsonTextWhat(ev) == JsonTextWhatM(ev, FALSE)
 
 JsonRtWhat(ev) ==
   IF ev.wout # "ok" THEN "json writer " \o ev.wout
@@ -293,7 +373,7 @@ KfJsonPairs(ev) ==
   /\ ~ev.flatten /\ ev.outcome = "ok"
   /\ LET d == JD!ParseStream(ev.text) IN
      /\ d.ok /\ d # J!ParseStream(ev.text) /\ Len(ev.rows) = Len(d.vs)
-     /\ \A i \in 1..Len(d.vs) : Agrees(ev.rows[i], d.vs[i], ev.schema, ev.smode)
+     /\ \A i \in 1..Len(d.vs) : Agrees(ev.rows[i], d.vs[i], ev.schema, ev.smode, FALSE)
 
 (* C17-json-duration-iso-not-readable: the writer formats Duration columns as ISO 8601 strings          *)
 (* ("PT0.004S"), the reader only parses numbers for them.                                               *)
@@ -314,8 +394,17 @@ RECURSIVE HasNullNull(_)
 HasNullNull(s) == (s.k = "union" /\ Len(s.kids) = 2 /\ s.kids[1].k = "null" /\ s.kids[2].k = "null")
                   \/ \E j \in 1..Len(s.kids) : HasNullNull(s.kids[j])
 
+(* C17-json-int-via-f64-inexact: a number lexeme the integer parser does not take (fraction, exponent, or   *)
+(* outside the range of the type) is read as f64 and cast, so an integer value beyond 2^53 is rounded to 53  *)
+(* bits before the cast: 9007199254740993.0 reads as ..992 into Int64, 9223372036854775807.0 is refused,      *)
+(* -9223372036854775809 is accepted as -2^63.  Identified by: the event is exactly what IntOutcome with      *)
+(* viaF64 = TRUE predicts.                                                                                  *)
+KfJsonIntF64(ev) == JsonTextWhatM(ev, TRUE) = ""
+
 KF(ev, what) ==
-  IF ev.op = "avro" /\ what = "avro round trip" /\ KfAvroUnion(ev) THEN "C17-avro-union-offsets-across-batches"
+  IF ev.op = "json_text" /\ what \in {"json values", "json reader rejects RFC 8259", "json int out of range read"} /\ KfJsonIntF64(ev)
+  THEN "C17-json-int-via-f64-inexact"
+  ELSE IF ev.op = "avro" /\ what = "avro round trip" /\ KfAvroUnion(ev) THEN "C17-avro-union-offsets-across-batches"
   ELSE IF ev.op = "avro" /\ what = "avro schema not Avro" /\ HasNullNull(ev.schema) THEN "C17-avro-null-column-union"
   ELSE IF ev.op = "csv_rt" /\ what \in {"csv text # Join", "csv Split(text)", "csv utf8 read", "csv round trip"} /\ KfCsvEscape(ev)
   THEN "C17-csv-escape-char-not-escaped"
